@@ -274,3 +274,74 @@ Fixpoint graph_paths (g : graph) : list (list node) :=
   | G n [] => [[n]]
   | G n cs => map (cons n) (flat_map graph_paths cs)
   end.
+
+(* ------------------------------------------------------------------ which traits a compiled pattern hooks *)
+(* observation/_observe.py:80-185 (_AddOrRemoveNotifier: notifiers on the observables of the node when it notifies,
+   then the children graphs on every next object) with iter_observables / iter_objects of
+   _named_trait_observer.py:76-135, _filtered_trait_observer.py:63-115, _metadata_filter.py:35-37, _anytrait_filter.py,
+   _list_item_observer.py:59-115, _dict_item_observer.py, _set_item_observer.py, _has_traits_helpers.py:31-72.
+   A heap is a list of objects: a HasTraits object is the list of its traits (name, metadata, possibly holding another
+   object of the heap: a value present in __dict__ that is not None/Undefined); a TraitList / TraitDict / TraitSet is
+   the list of its items (values for a dict). *)
+Inductive mval := MVNone | MVFalsy | MVTruthy.   (* metadata value: None (or absent) / not None but falsy / truthy *)
+Record tdesc := mkT { t_name : word; t_meta : list (word * mval); t_val : option nat }.
+Inductive object := OTraits (ts : list tdesc) | OList (items : list nat) | ODict (vals : list nat) | OSet (items : list nat).
+Definition heap := list object.
+Inductive hit := Hit (o : nat) (w : word)         (* the handler is attached to trait w of object o; w = [] : to the container o itself *)
+               | Err (o : nat) (w : word).        (* observe raises: required trait w missing on o / o is not that container / has no traits *)
+
+(* an observable: its label and the objects it hands to the next observers *)
+Definition oitem := (word * list nat)%type.
+
+Fixpoint meta_of (l : list (word * mval)) (w : word) : mval :=
+  match l with [] => MVNone | (k, v) :: r => if word_eqb k w then v else meta_of r w end.
+Definition not_none (v : mval) : bool := match v with MVNone => false | _ => true end.
+Fixpoint find_trait (ts : list tdesc) (w : word) : option tdesc :=
+  match ts with [] => None | t :: r => if word_eqb (t_name t) w then Some t else find_trait r w end.
+Definition trait_item (t : tdesc) : oitem := (t_name t, match t_val t with Some o' => [o'] | None => [] end).
+
+Definition filter_ok (f : filt) (t : tdesc) : bool :=
+  match f with
+  | FAny => true                                           (* anytrait_filter *)
+  | FMeta w => not_none (meta_of (t_meta t) w)             (* getattr(trait, name) is not None *)
+  end.
+
+Definition node_notify (n : node) : bool :=
+  match n with NNamed _ b _ | NFilt b _ | NDict b _ | NList b _ | NSet b _ => b end.
+
+Definition unless (opt : bool) (e : hit) : list hit := if opt then [] else [e].
+
+(* iter_observables / iter_objects: the observables of the node on the object, and the error it raises *)
+Definition observables (n : node) (o : nat) (ob : object) : list oitem * list hit :=
+  match ob, n with
+  | OTraits ts, NNamed w _ opt => match find_trait ts w with
+                                  | Some t => ([trait_item t], [])
+                                  | None => ([], unless opt (Err o w)) end
+  | OTraits ts, NFilt _ f => (map trait_item (filter (filter_ok f) ts), [])
+  | OList items, NList _ _ => ([([], items)], [])
+  | ODict vals, NDict _ _ => ([([], vals)], [])
+  | OSet items, NSet _ _ => ([([], items)], [])
+  | _, NNamed w _ opt => ([], unless opt (Err o w))        (* object_has_named_trait: not a CHasTraits *)
+  | _, NFilt _ _ => ([], [Err o []])                        (* object.traits(): AttributeError *)
+  | _, (NDict _ opt | NList _ opt | NSet _ opt) => ([], unless opt (Err o []))
+  end.
+
+Definition nth_obj (h : heap) (o : nat) : object := nth o h (OTraits []).
+
+Fixpoint hook_graph (h : heap) (o : nat) (g : graph) : list hit :=
+  match g with
+  | G n cs =>
+      let '(obs, errs) := observables n o (nth_obj h o) in
+      errs ++ (if node_notify n then map (fun x => Hit o (fst x)) obs else [])
+      ++ flat_map (fun c => flat_map (fun x => flat_map (fun o' => hook_graph h o' c) (snd x)) obs) cs
+  end.
+
+(* the same walk along one path of observers *)
+Fixpoint hook_path (h : heap) (o : nat) (p : list node) : list hit :=
+  match p with
+  | [] => []
+  | n :: r =>
+      let '(obs, errs) := observables n o (nth_obj h o) in
+      errs ++ (if node_notify n then map (fun x => Hit o (fst x)) obs else [])
+      ++ flat_map (fun x => flat_map (fun o' => hook_path h o' r) (snd x)) obs
+  end.
